@@ -233,7 +233,9 @@ func c05Base(c *Ctx, p *Prog) {
 	n := 0
 	for _, o := range outs {
 		var hasSlash *bool
-		for k, v := range o.Assign {
+		for _, k := range o.AtomKeys() {
+			v := o.Assign[k]
+			_ = v
 			s := o.AtomSyms[k]
 			if s.Op != "binop" || !strings.Contains(s.String(), "bytes.IndexByte") {
 				continue
@@ -512,7 +514,9 @@ func c05Splitter(c *Ctx, p *Prog) {
 		}
 		for _, o := range outs {
 			dash, follows, other := "?", "?", []string{}
-			for k, v := range o.Assign {
+			for _, k := range o.AtomKeys() {
+				v := o.Assign[k]
+				_ = v
 				s := o.AtomSyms[k]
 				str := s.String()
 				switch {
